@@ -103,6 +103,8 @@ Init0 ==
      \* the confirm wait we are blocked in
      series    |-> [ecsn |-> 0, fin |-> TRUE],
      cont      |-> "After1",    \* where run_idle_state resumes after a solicited wait
+     solRep    |-> [gen |-> 0, seq |-> -1],   \* the last written solicited fragment that reported a confirm-mandatory
+                                              \* broadcast: its generation and sequence number (kept across sessions)
      awaitBc   |-> 0,           \* generation of the broadcast the awaited solicited fragment reported (0 none)
      deadline  |-> NoTime,
      uresp     |-> NoResp,      \* unsolicited response being (re)sent
@@ -335,7 +337,9 @@ WriteSolicited(s, r0, fresh) ==
                               !.bcg = IF s.lastBc # "none" THEN s.bcGen ELSE @]
              s1 == AfterIin(s)
              s2 == IF fresh /\ r1.body # <<>> THEN [s1 EXCEPT !.solBuf = r1.body] ELSE s1
-         IN [st |-> Emit(s2, Wire(r1, s2.solBuf)), resp |-> r1]
+             s3 == [s2 EXCEPT !.solRep = IF s.lastBc = "man" THEN [gen |-> s.bcGen, seq |-> r1.seq]
+                                         ELSE [gen |-> 0, seq |-> -1]]
+         IN [st |-> Emit(s3, Wire(r1, s3.solBuf)), resp |-> r1]
 
 \* repeat_solicited: stored header + whatever the solicited buffer holds now
 RepeatSolicited(s, r) == Emit(s, Wire(r, s.solBuf))
@@ -406,6 +410,15 @@ MatchOperate(s, q) ==
     ELSE IF s.now - s.select.t > SelectTO THEN 1
     ELSE 0
 
+\* ---- freeze requests.  Object sets: "all" = g20v0 all objects, "rng" = g20v0 range 0..1, "gb" / "bg" = g20v0 and
+\*      g30v0 (not freezable) in either order, "bad" = g30v0 only; for FREEZE_AT_TIME "timed" = g50v2 then g20v0
+FrzFns == {"frz", "frznr", "frzclr", "frzclrnr", "frzat", "frzatnr"}
+FrzNoAck(f) == f \in {"frznr", "frzclrnr", "frzatnr"}
+FrzName(f) == CASE f \in {"frz", "frznr"} -> "freeze" [] f \in {"frzclr", "frzclrnr"} -> "freeze_clear"
+                [] OTHER -> "freeze_at_time"
+FrzCb(s, f, ob) == IF ob = "rng" THEN [MkCb(s.now, "app", "freeze", <<0, 1>>) EXCEPT !.s = FrzName(f)]
+                   ELSE [MkCb(s.now, "app", "freeze", <<>>) EXCEPT !.s = FrzName(f) \o ":all"]
+
 \* handle_non_read for the functions modelled here
 HandleNonRead(s, q) ==
     CASE q.f = "delay" ->
@@ -438,6 +451,15 @@ HandleNonRead(s, q) ==
             \* COLD / WARM_RESTART: the application is asked; it does not support restarts: IIN2.0
             [st |-> [s EXCEPT !.ocb = Append(@, MkCb(s.now, "app", q.f \o "_restart", <<>>))],
              resp |-> EmptyResp(q.seq, [NoIin EXCEPT !.nofn = TRUE])]
+      [] q.f \in FrzFns ->
+            \* IMMED_FREEZE / FREEZE_CLEAR / FREEZE_AT_TIME and their no-acknowledge forms: every g20v0 header is
+            \* handed to the application (which accepts it); any other header is IIN2.0; FREEZE_AT_TIME without a
+            \* preceding time-and-interval object is a parameter error; the errors of all headers accumulate
+            LET isAt  == q.f \in {"frzat", "frzatnr"}
+                calls == (isAt /\ q.ob = "timed") \/ (~isAt /\ q.ob \in {"all", "rng", "gb", "bg"})
+                iin   == [NoIin EXCEPT !.nofn = q.ob \in {"gb", "bg", "bad"}, !.param = isAt /\ q.ob # "timed"]
+            IN [st |-> IF calls THEN [s EXCEPT !.ocb = Append(@, FrzCb(s, q.f, q.ob))] ELSE s,
+                resp |-> IF FrzNoAck(q.f) THEN NoReply ELSE EmptyResp(q.seq, iin)]
       [] q.f = "write2" ->
             \* WRITE with two g80v1 headers: index 4 (not writable: parameter error) and index 7 = 0 (clears the restart
             \* indication), in the order "bg" (rejected first) or "gb".  DEV WriteKeepsLastStatus: handle_write assigned
@@ -472,10 +494,11 @@ Reply(h) == IF h.resp.has THEN WriteSolicited(h.st, h.resp, TRUE) ELSE [st |-> h
 \* process_broadcast: latch the confirm mode, run the few functions allowed by broadcast, never reply
 BcMode(dst) == CASE dst = "BC_OPT" -> "opt" [] dst = "BC_MAN" -> "man" [] OTHER -> "nr"
 ProcessBroadcast(s, q) ==
-    LET s1 == [s EXCEPT !.lastBc = BcMode(q.dst), !.bcGen = @ + 1]
+    LET s1 == [s EXCEPT !.lastBc = BcMode(q.dst), !.bcGen = @ + 1, !.solRep = [gen |-> 0, seq |-> -1]]
         done(st, act) == [st EXCEPT !.ocb = Append(@, [MkCb(s.now, "info", "broadcast", <<q.fc>>) EXCEPT !.s = act])]
     IN CASE q.bad = "badobj" -> done(s1, "bad_headers")
-         [] q.f \in {"write_rst", "dopnr", "enable", "disable"} ->
+         [] q.f \in {"write_rst", "dopnr", "enable", "disable", "frznr", "frzclrnr", "frzatnr", "record",
+                     "wtabs", "wtlast", "write2"} ->
                done(HandleNonRead(s1, q).st, "processed")
          [] OTHER -> done(s1, "unsupported_function")
 
@@ -627,9 +650,10 @@ UnsolWaitRx(s) ==
                              "Confirmed")
               ELSE s0
       [] q.f = "confirm" ->
-            \* a solicited confirm while no solicited response is awaited confirms nothing; the code
-            \* nevertheless takes it as the confirmation of a confirm-mandatory broadcast
-            IF s0.lastBc = "man" THEN ConfirmClearsBc(s0, 0) ELSE s0
+            \* no solicited response is awaited here, but a reply written during this wait may have reported a
+            \* confirm-mandatory broadcast (with CON forced): the confirm that carries its sequence number
+            \* acknowledges the broadcast; any other solicited confirm confirms nothing
+            IF s0.lastBc = "man" /\ s0.solRep.seq = q.seq THEN ConfirmClearsBc(s0, s0.solRep.gen) ELSE s0
       [] IsBc(q) -> ProcessBroadcast([s0 EXCEPT !.deferred = NoDef], q)
       [] q.bad = "badobj" ->
             WriteSolicited([s0 EXCEPT !.deferred = NoDef],
@@ -779,7 +803,9 @@ Advance(s, target) ==
 FcOf(f) == CASE f = "read" -> 1 [] f = "delay" -> 23 [] f = "enable" -> 20 [] f = "disable" -> 21
              [] f = "write_rst" -> 2 [] f = "write2" -> 2 [] f = "wtabs" -> 2 [] f = "wtlast" -> 2 [] f = "record" -> 24
              [] f = "cold" -> 13 [] f = "warm" -> 14 [] f = "select" -> 3 [] f = "operate" -> 4 [] f = "dop" -> 5
-             [] f = "dopnr" -> 6 [] f = "unkfn" -> 112 [] OTHER -> 0
+             [] f = "dopnr" -> 6 [] f = "unkfn" -> 112
+             [] f = "frz" -> 7 [] f = "frznr" -> 8 [] f = "frzclr" -> 9 [] f = "frzclrnr" -> 10
+             [] f = "frzat" -> 11 [] f = "frzatnr" -> 12 [] OTHER -> 0
 
 Fld(in, name, dflt) == IF name \in DOMAIN in THEN in[name] ELSE dflt
 
